@@ -75,6 +75,27 @@ class Recorder:
         self.inconclusive = []
         self.extra = {}
         self._viol_mechs = {}
+        self.ticker = None  # optional: unrelated library activity, run between judged cases (see vf/engines/noise.py)
+        self.tick_every = 64
+        self._in_tick = False
+
+    def _maybe_tick(self):
+        import sys
+        import threading
+
+        if self.ticker is None or self._in_tick or threading.current_thread() is not threading.main_thread():
+            return
+        try:
+            if sys.monitoring.get_tool(sys.monitoring.DEBUGGER_ID) is not None:
+                return  # a census / failpoint / probe is recording: not now
+        except Exception:  # noqa: BLE001
+            return
+        self._in_tick = True
+        try:
+            self.ticker()
+            self.counters["background_noise_ticks"] = self.counters.get("background_noise_ticks", 0) + 1
+        finally:
+            self._in_tick = False
 
     # -- coverage -----------------------------------------------------------------
     def case(self, distinct_key=None, nontrivial=True, n=1):
@@ -83,6 +104,8 @@ class Recorder:
         self.evaluations += n
         if nontrivial and distinct_key is not None:
             self.distinct.add(_h(distinct_key))
+        if self.ticker is not None and self.evaluations % self.tick_every < n:
+            self._maybe_tick()
 
     def count(self, name, n=1):
         self.counters[name] = self.counters.get(name, 0) + n
